@@ -47,4 +47,9 @@ fn c12_hostname_and_party() {
     let tp = |u: &str, s: &str| Request::new(u, s, "script").unwrap().is_third_party;
     assert!(!tp("https://a.example.com/", "https://b.example.com/") && tp("https://example.com/", "https://notexample.com/") && tp("https://a.co.uk/", "https://b.co.uk/"));
     assert!(!tp("https://x.a.co.uk/", "https://a.co.uk/") && tp("https://example.com/", "") && tp("https://example.com/", "not a url"));
+    // hosts that are not names on the public suffix list (IP literals, numeric labels): the whole host is its own "registrable domain"
+    assert!(tp("https://10.0.0.1/a.js", "https://10.0.0.2/") && !tp("https://10.0.0.1/a.js", "https://10.0.0.1/x"));
+    assert!(tp("https://[::1]/a.js", "https://[::2]/") && !tp("https://[::1]/a.js", "https://[::1]:8080/"));
+    assert!(tp("https://10.0.0.1/a.js", "https://example.com/") && tp("https://example.com/a.js", "https://10.0.0.1/"));
+    assert!(tp("https://host.123/", "https://other.123/"));
 }
